@@ -19,7 +19,8 @@ RULE = (
     'of 1/8 and the step is any multiple of 1/8 up to 100 (1, 0.5, 0.25, 2, '
     '2.5, 5, 3, 7, 49, 75, 77, 93, 99 over-sampled), so the exact '
     'Fraction model decides the reported level sequence with equality. Free '
-    'regime: decimal steps (0.1, 0.2, 0.3, 0.7, 1/3) with samples placed on, '
+    'regime: decimal steps (0.1, 0.2, 0.3, 0.7, 1/3) and arbitrary float '
+    'steps in [0.01, 50] with samples placed on, '
     'one ulp below and one ulp above k*step; a sample whose exact quotient '
     'lies within 2 ulp above an integer may be read either way. Every '
     'reported abscissa must lie in its bracket and satisfy the interpolant '
@@ -78,7 +79,9 @@ def _nudge(value, ulps):
 
 @st.composite
 def free_cases(draw):
-    h = draw(st.sampled_from(FREE_STEPS))
+    h = draw(st.one_of(st.sampled_from(FREE_STEPS),
+                       st.sampled_from(FREE_STEPS),
+                       st.floats(0.01, 50.0)))
     n = draw(st.integers(2, 10))
     x0 = draw(st.sampled_from([0.0, 0.5, 1400000000.0, 12.25]))
     dxs = draw(st.lists(st.one_of(
